@@ -17,7 +17,7 @@ def units(tier, seed=0):
     if tier == 'quick':
         us = famcheck.family_units(FAMS, [7], TABLES)
         us += famcheck.family_units(FAMS, [6], TABLES, only=QUICK_POLICY_SYM, tag='/policy',
-                                    sym_sys={'sctlr': SCTLR_AU})
+                                    sym_sys={'sctlr': SCTLR_AU}, e_sym=True)
         return us
     us = famcheck.family_units(FAMS, [6, 7], TABLES, sym_sys={'sctlr': SCTLR_AU}, e_sym=True)
     return us
@@ -32,7 +32,7 @@ META = {
                    'transferred bytes (pointwise extensional memory equality), destination value, write-back, '
                    'load-to-PC interworking, alignment aborts (DFSR/DFAR, abt entry) and the frame equal the A8.8 '
                    'pseudocode.',
-    'bounds': ['quick: arch 7 with the reset alignment policy for all rows + arch 6 with SCTLR.A/U symbolic for the '
+    'bounds': ['quick: arch 7 with the reset alignment policy for all rows + arch 6 with SCTLR.A/U and CPSR.E symbolic for the '
                'anchor rows; thorough: arch 6 and 7, SCTLR.A/U and CPSR.E symbolic for every row',
                'MPU off (permission faults are C14)', 'exclusive monitors are constant-False stubs in the repository: '
                'STREX* is checked against "monitor never passes"'],
